@@ -276,6 +276,9 @@ def plan(tier, seed):
     for name in sorted(REF_PROGS):
         cases.append({"gen": "wcrash", "prog": name, "full": thorough})
     cases.append({"gen": "wcrash", "prog": "@big64k", "full": False, "sample": 40 if thorough else 12, "seed": mix(seed, "w64")})
+    # crash points of the utilities that write code files themselves (pbind, alink): torn outputs go to the readers
+    for name in sorted(REF_PROGS):
+        cases.append({"gen": "wcrash2", "ref": name})
     # big 64 KiB split file: sampled truncations / flips only
     cases.append({"gen": "bigfile", "seed": mix(seed, "big"), "n": 200 if thorough else 40})
     # E5 source EOF at line boundaries
@@ -556,6 +559,35 @@ def run_case(sim, case):
             mutated_tools(sim, acc, f, "E4 %s crash op=%d nth=%d act=%d arg=%d" % (case["prog"], op, k, act, arg),
                           "torn-input", case["full"], k, len(f))
         acc.sample = {"space": "E4", "prog": case["prog"], "crash_points": len(points), "distinct_surviving_files": len(seen_files)}
+    elif g == "wcrash2":
+        b = ref_files(sim)[case["ref"]]
+        seen_files = set()
+        for prog, argv in (("pbind", ["f.p", "out.p"]), ("alink", ["f.p", "out.p"]), ("pbind", ["f.p", "f.p", "out.p"])):
+            base = sc_tool(prog, argv, b)
+            base["want_events"] = 1
+            r0, san = sim.run(prog, base, "asan")
+            acc.runs += 1
+            idx = {pth: i for i, pth in r0.index.items()}.get("/w/out.p")
+            if idx is None:
+                continue
+            wlens = [e[5] for e in r0.ev() if e[1] == EV_WRITE and e[3] == idx]
+            nseeks = len([e for e in r0.ev() if e[1] == EV_SEEK and e[3] == idx])
+            points = [(EV_WRITE, k, ACT_CRASH, 0) for k in range(1, len(wlens) + 1)]
+            points += [(EV_WRITE, k, ACT_TORN, max(1, ln // 2)) for k, ln in enumerate(wlens, 1) if ln > 1]
+            points += [(EV_SEEK, k, ACT_CRASH, 0) for k in range(1, nseeks + 1)]
+            for op, k, act, arg in points:
+                sc = dict(base)
+                sc["want_events"] = 0
+                sc["faults"] = [{"op": op, "cls": CLS_CODE, "action": act, "nth": k, "arg": arg, "sub": "out.p"}]
+                r, san = sim.run(prog, sc, "asan")
+                acc.runs += 1
+                acc.bump(acc.faults, "writer-crash" if act == ACT_CRASH else "torn-write")
+                f = r.get("/w/out.p")
+                if r.kind != 2 or f is None or f in seen_files:
+                    continue
+                seen_files.add(f)
+                mutated_tools(sim, acc, f, "E4 %s of %s crash op=%d nth=%d act=%d" % (prog, case["ref"], op, k, act), "torn-input", False, k, len(f))
+        acc.sample = {"space": "E4 (utility writers)", "ref": case["ref"], "distinct_surviving_files": len(seen_files)}
     elif g == "bigfile":
         r0, san = sim.run("asl", sc_asl(BIG64K), "asan")
         acc.runs += 1
